@@ -35,6 +35,14 @@ class AstToSqlAlchemyCoreVisitor(common._CommonVisitors, visitor.NodeVisitor):
 
     def visit_Compare(self, node: ast.Compare) -> BinaryExpression:
         """:meta private:"""
+        if (
+            isinstance(node.left, ast.Null)
+            and not isinstance(node.right, ast.Null)
+            and isinstance(node.comparator, (ast.Eq, ast.NotEq))
+        ):
+            # `null eq x` means the same as `x eq null` (-> `x IS NULL`):
+            node = ast.Compare(node.comparator, node.right, node.left)
+
         left = self.visit(node.left)
         right = self.visit(node.right)
         op = self.visit(node.comparator)
